@@ -281,6 +281,33 @@ func (f *frame) stdlib(i *ssa.Call, full string, args []T, st *State, pc string)
 							isT := func(a string) string { return "(or ((_ is AStr) " + a + ") ((_ is ABytes) " + a + "))" }
 							g.s.assumeUnder(pc, imp(and(isT(as[0]), isT(as[1])), eq("(val "+r.S+")", "(cat (cat "+tx(as[0])+" "+g.s.lit("-")+") "+tx(as[1])+")")))
 						}
+						if pieces, ok := sprintfTextPieces(constant.StringVal(c.Value), n); ok && constant.StringVal(c.Value) != "%s-%s" {
+							// only %s verbs: the literal pieces of the format around the texts (T-STD)
+							tx := func(a string) string { return "(ite ((_ is AStr) " + a + ") (val (a.s " + a + ")) (val (a.y " + a + ")))" }
+							isT := func(a string) string { return "(or ((_ is AStr) " + a + ") ((_ is ABytes) " + a + "))" }
+							var conds []string
+							acc := ""
+							add := func(t string) {
+								if acc == "" {
+									acc = t
+								} else {
+									acc = "(cat " + acc + " " + t + ")"
+								}
+							}
+							for k := 0; k <= n; k++ {
+								if pieces[k] != "" {
+									add(g.s.lit(pieces[k]))
+								}
+								if k < n {
+									add(tx(as[k]))
+									conds = append(conds, isT(as[k]))
+								}
+							}
+							if acc == "" {
+								acc = g.s.lit("")
+							}
+							g.s.assumeUnder(pc, imp(and(conds...), eq("(val "+r.S+")", acc)))
+						}
 						if constant.StringVal(c.Value) == "%v" && n == 1 {
 							// %v of a float is its shortest round-tripping rendering ftoa (T-STD; ftoa is injective)
 							g.s.assumeUnder(pc, imp("((_ is AFlt) "+as[0]+")", eq("(val "+r.S+")", "(ftoa (a.f "+as[0]+"))")))
@@ -374,4 +401,36 @@ func heapRefOf(a ssa.Value, f *frame) string {
 		return f.val(mi.X).S
 	}
 	return f.val(a).S
+}
+
+
+// sprintfTextPieces splits a format that consists of literal text and exactly n plain %s verbs
+// into its n+1 literal pieces ("%%" is a literal percent sign).
+func sprintfTextPieces(format string, n int) ([]string, bool) {
+	var pieces []string
+	cur := ""
+	for i := 0; i < len(format); i++ {
+		if format[i] != '%' {
+			cur += string(format[i])
+			continue
+		}
+		if i+1 >= len(format) {
+			return nil, false
+		}
+		switch format[i+1] {
+		case '%':
+			cur += "%"
+		case 's':
+			pieces = append(pieces, cur)
+			cur = ""
+		default:
+			return nil, false
+		}
+		i++
+	}
+	pieces = append(pieces, cur)
+	if len(pieces) != n+1 || n == 0 {
+		return nil, false
+	}
+	return pieces, true
 }
